@@ -697,9 +697,31 @@ fn gen_k(r: &mut Rng, out: &mut Out, icd: bool, well: bool, len: u64, epoch: u64
 pub fn gen(a: &Args) -> String {
     let mut r = Rng::new(a.seed);
     let mut out = Out::default();
-    out.buf.push_str("#rule one case = one lifetime of a device's storage: a start boundary (absent, 0, 1, next to the wrap-around of the counter range, or uniform) and a history of reservations / stores / uses with power losses placed before or after every individual store; streams g (group data counter through the real Sessions + initiate_group's caller protocol), e (Events::push with a recording KV store), k (CheckInCounter, harness = application), i (Icd storage wrappers); non-trivial = at least one power loss, at least two values used and at least one store in the case (cases not reaching that are still counted when they produced two different outputs); distinct = by start boundary + operation list\n");
-    let n_cases: u64 = if a.thorough { 40000 } else { 3000 };
-    let mut e_budget: u64 = if a.thorough { 30_000_000 } else { 2_500_000 };
+    out.buf.push_str("#rule one case = one lifetime of a device's storage: a start boundary (absent, 0, 1, next to the wrap-around of the counter range, or uniform) and a history of reservations / stores / uses with power losses placed before or after every individual store; streams g (group data counter through the real Sessions + initiate_group's caller protocol; plus all g histories of length 6 (quick) / 7 (thorough) over {reserve, store, stash, use, crash} from start values at the wrap), e (Events::push with a recording KV store), k (CheckInCounter, harness = application), i (Icd storage wrappers); non-trivial = at least one power loss, at least two values used and at least one store in the case (cases not reaching that are still counted when they produced two different outputs); distinct = by start boundary + operation list\n");
+    // all `g` histories of a fixed length over the caller's alphabet, from start values at the wrap
+    // (shorter histories are prefixes of these)
+    let alphabet = ["reserve 0", "store", "stash", "use 0", "crash"];
+    let (exh_len, exh_starts): (u32, &[Option<u64>]) = if a.thorough {
+        (7, &[Some(MASK), Some(MASK - 1), Some(MASK - 999), Some(MASK - 998), Some(0), None])
+    } else {
+        (6, &[Some(MASK), Some(MASK - 999), Some(0), None])
+    };
+    let mut exh_id: u64 = 1_000_000;
+    for d0 in exh_starts {
+        for code in 0..(alphabet.len() as u64).pow(exh_len) {
+            let mut c = code;
+            let mut ops: Vec<String> = Vec::with_capacity(exh_len as usize);
+            for _ in 0..exh_len {
+                ops.push(alphabet[(c % alphabet.len() as u64) as usize].to_string());
+                c /= alphabet.len() as u64;
+            }
+            out.stat("kind_g_exhaustive", 1);
+            run_case(&mut out, &Case { id: exh_id, kind: format!("g {}", d0_str(*d0)), ops });
+            exh_id += 1;
+        }
+    }
+    let n_cases: u64 = if a.thorough { 60000 } else { 3000 };
+    let mut e_budget: u64 = if a.thorough { 60_000_000 } else { 2_500_000 };
     for id in 0..n_cases {
         let mut cr = r.fork();
         let sel = cr.below(100);
